@@ -389,6 +389,25 @@ class Function:
         return seen
 
 
+def c_int_literal(text):
+    """The value of an integer literal as the C compiler reads it: a leading 0 makes it octal (`072` is 58), 0x hexadecimal;
+    integer suffixes and parentheses are accepted.  None if the text is not a single literal."""
+    t = text.strip()
+    while t.startswith("(") and t.endswith(")"):
+        t = t[1:-1].strip()
+    m = re.match(r"^(-?)\s*(0[xX][0-9a-fA-F]+|0[0-7]*|[1-9][0-9]*)([uUlL]*)$", t)
+    if not m:
+        return None
+    sign, digits = m.group(1), m.group(2)
+    if digits.lower().startswith("0x"):
+        v = int(digits, 16)
+    elif digits.startswith("0") and len(digits) > 1:
+        v = int(digits, 8)
+    else:
+        v = int(digits)
+    return -v if sign else v
+
+
 class Program:
     def __init__(self, facts, info=None):
         self.info = info or {}
@@ -464,13 +483,10 @@ class Program:
     def macro_int(self, name):
         m = self.macro(name)
         body = m["body"].strip()
-        try:
-            return int(body, 0)
-        except ValueError:
-            mm = re.match(r"^\(?\s*(-?\s*\d+)\s*\)?$", body)
-            if mm:
-                return int(mm.group(1).replace(" ", ""))
-            raise Broken("macro %s is not an integer: %r" % (name, body))
+        v = c_int_literal(body)
+        if v is None:
+            raise Broken("macro %s is not an integer literal: %r" % (name, body))
+        return v
 
     def public_api(self):
         """Names of functions declared in cif.h (the public entry points)."""
